@@ -379,8 +379,36 @@ fixedArrayFromBuffer (PyObject *obj)
         throw std::invalid_argument ("Unsupported buffer type");
     }
 
+    //  The source must hold elements of the array's atomic type (same size
+    // and same kind: floating point, signed or unsigned integer; 'l' and
+    // 'q' of equal size are the same type) and exactly shape[0] whole
+    // array elements, otherwise the copy below would read or write out of
+    // bounds or reinterpret the data.
+    using T = typename ArrayT::BaseType;
+    const char *fmt = view.format;
+    if (*fmt == '@' || *fmt == '<')
+        ++fmt;
+    auto fmtKind = [] (char c) -> int {
+        switch (c)
+        {
+            case 'e': case 'f': case 'd': return 0;
+            case 'b': case 'h': case 'i': case 'l': case 'q': return 1;
+            case 'B': case 'H': case 'I': case 'L': case 'Q': return 2;
+            default: return 3 + int (static_cast<unsigned char> (c));
+        }
+    };
+    if (view.shape == nullptr || view.ndim < 1 ||
+        view.itemsize != Py_ssize_t (FixedArrayAtomicSize<T>::value) ||
+        fmtKind (fmt[0]) != fmtKind (PyFormat<T>()[0]) ||
+        view.len != view.shape[0] * Py_ssize_t (sizeof (T)))
+    {
+        PyBuffer_Release(&view);
+        throw std::invalid_argument ("Buffer element type or size does not match the array type");
+    }
+
     ArrayT *array = new ArrayT (view.shape[0], PyImath::UNINITIALIZED);
-    memcpy (reinterpret_cast<void*>(&array->direct_index(0)), view.buf, view.len);
+    if (view.len > 0)
+        memcpy (reinterpret_cast<void*>(&array->direct_index(0)), view.buf, view.len);
     PyBuffer_Release(&view);
 
     return array;
